@@ -1,0 +1,24 @@
+//go:build verif
+// +build verif
+
+package log
+
+// VerifRelease flushes and closes the file of a secondary logger and takes
+// the logger out of the registry of secondary loggers.  The harnesses create
+// thousands of short-lived auditions, each with its own loggers; without this
+// every one of them keeps a file descriptor until the process ends.
+func VerifRelease(s *SecondaryLogger) {
+	if s == nil {
+		return
+	}
+	_ = VerifSecondaryLogger(s).CloseFile()
+	secondaryLogRegistry.mu.Lock()
+	defer secondaryLogRegistry.mu.Unlock()
+	ls := secondaryLogRegistry.mu.loggers
+	for i, l := range ls {
+		if l == s {
+			secondaryLogRegistry.mu.loggers = append(ls[:i:i], ls[i+1:]...)
+			break
+		}
+	}
+}
